@@ -133,11 +133,11 @@ theorem C09_verify_sound (remote : List Remote) (loc : List Local) (h : verify r
     · have := unp _ _ (hl y hy); omega
 
 /-- **merge_all_or_nothing (admission).** A version error or a merge-delegate veto is decided
-before anything is merged: `admit` returns `merged` only if the versions verify and the delegate
+before anything is merged: `admission` returns `merged` only if the versions verify and the delegate
 (consulted on joins only) did not veto. -/
 theorem C09_admission (remote : List Remote) (loc : List Local) (join hasDel ok : Bool) :
-    admit remote loc join hasDel ok = .merged ↔ (verify remote loc = true ∧ ¬ (join = true ∧ hasDel = true ∧ ok = false)) := by
-  unfold admit
+    admission remote loc join hasDel ok = .merged ↔ (verify remote loc = true ∧ ¬ (join = true ∧ hasDel = true ∧ ok = false)) := by
+  unfold admission
   cases verify remote loc <;> cases join <;> cases hasDel <;> cases ok <;> simp
 
 end Swim.Verify
